@@ -279,8 +279,11 @@ func c17ACT(c *fw.Ctx, i int) {
 	r := c.R
 	// one receiver decoding the whole stream, as an application does per packet; values it decoded earlier were copied out by assignment
 	stream := &rtp.AbsCaptureTimeExtension{}
-	var earlier rtp.AbsCaptureTimeExtension
-	var earlierWire []byte
+	type decoded struct {
+		v    rtp.AbsCaptureTimeExtension
+		wire []byte
+	}
+	var earlier []decoded // the last few values copied out of the stream receiver
 	for k := 0; k < 1024; k++ {
 		ts := r.PickU64(0, 1, 1<<63, ^uint64(0), 0x83AA7E8000000000, r.U64(), r.U64(), r.U64())
 		hasOff := r.Bool()
@@ -362,15 +365,18 @@ func c17ACT(c *fw.Ctx, i int) {
 			c.Fail("C17/abscapturetime/unmarshal-timestamp", "stream receiver refused a valid encoding: "+err.Error(), w)
 			return
 		}
-		if earlierWire != nil {
-			if now, err := earlier.Marshal(); err != nil || !bytes.Equal(now, earlierWire) {
+		for _, e := range earlier {
+			if now, err := e.v.Marshal(); err != nil || !bytes.Equal(now, e.wire) {
 				c.Fail("C17/abscapturetime/earlier-decoded-value-changed-by-a-later-Unmarshal", fmt.Sprintf("a value decoded from %s and copied out of the receiver encodes as %s after the receiver decoded %s",
-					fw.Hex(earlierWire), fw.Hex(now), fw.Hex(want)), w)
+					fw.Hex(e.wire), fw.Hex(now), fw.Hex(want)), w)
 				return
 			}
 			c.Count("earlier_decoded_values_rechecked", 1)
 		}
-		earlier, earlierWire = *stream, want
+		earlier = append(earlier, decoded{*stream, want})
+		if len(earlier) > 4 {
+			earlier = earlier[1:]
+		}
 		{
 			init := e // receiver initialised by assignment from a live value
 			other := binary.BigEndian.AppendUint64(binary.BigEndian.AppendUint64(nil, ^ts), uint64(off)^0x5555)
